@@ -115,6 +115,14 @@ def main():
         finish(ctx)
     if ctx.replay:
         rp = json.load(open(ctx.replay if os.path.isabs(ctx.replay) else os.path.join(VERIF, ctx.replay)))
+        if "reload_walk" in rp:
+            rb = build_harness(ctx, ["realrun"])
+            outp = os.path.join(ctx.run, "reload.jsonl")
+            rc, o = sh([rb["realrun"], "-mode", "reload", "-walk", ",".join(rp["reload_walk"]), "-out", outp], cwd=ctx.run, timeout=300)
+            rl = [json.loads(l) for l in open(outp)] if rc == 0 else []
+            if [r for r in rl if r.get("kind") == "reload_step" and r["after"] != rp["step"]["expected_after"]]:
+                violation(ctx, rp)
+            finish(ctx)
         recs = run_defsrun(ctx, bins, rp.get("run_seed", 1), rp.get("n", 0), rp.get("ne", 0), only=rp.get("case_id"))
         mon, bad, drift = evaluate(ctx, recs)
         for r in recs:
@@ -164,6 +172,24 @@ def main():
     if not proof_ok:
         violation(ctx, {"what": "Coq development for C17 does not check", "broken": "Properties/C17.v or its dependencies",
                         "log": ctx.log_lines[-5:]}, found_input=False)
+    # "every edit is detected" at the place where the decision is taken: the reload loop of the real application (watch mode) while the
+    # definition file walks over three versions and often returns to an earlier content
+    rb = build_harness(ctx, ["realrun"])
+    rl = []
+    if rb:
+        outp = os.path.join(ctx.run, "reload.jsonl")
+        rc, o = sh([rb["realrun"], "-mode", "reload", "-seed", str(ctx.seed), "-n", "2" if ctx.tier == "quick" else "10", "-out", outp], cwd=ctx.run, timeout=900)
+        if rc == 0:
+            rl = [json.loads(l) for l in open(outp)]
+    steps = [r for r in rl if r.get("kind") == "reload_step"]
+    if not steps:
+        violation(ctx, {"what": "realrun -mode reload did not complete", "broken": "the reload walk over the real application (C17: every edit detected) cannot run"}, found_input=False)
+    ctx.coverage["reload_walk_steps"] = len(steps)
+    ctx.coverage["reload_walk_returns_to_earlier_version"] = sum(1 for r in steps if r["to"] in r["walk"][:r["step"] + 1])
+    undetected = [r for r in steps if "still print" in (r.get("what") or "")]
+    for r in undetected[:2]:
+        violation(ctx, {"what": "real application (watch mode): an edit of the definitions was not detected: " + r["what"], "reload_walk": r["walk"][:r["step"] + 2],
+                        "step": dict(r, expected_after="ver=%s rv=%s" % (r["to"], "unset" if r["to"] == "a" else r["to"]))})
     # concrete violations: the property evaluated directly on the implementation's behaviour
     for r in mon[:5]:
         violation(ctx, {"what": r["monitor"], "case": r, "run_seed": ctx.seed, "n": n, "ne": ne, "case_id": r["id"]})
